@@ -202,6 +202,12 @@ def r7_no_memo(ctx, res):
         raise AnalysisError(f'only {n} functions of similarity / taxonomy / ic examined for memoisation')
 
 
+def r8_paths_behind_the_metrics(ctx, res):
+    """path, wup and lch are formulas over taxonomy.shortest_path / lowest_common_hypernyms / depths: the anchors of C13-R5 (the
+    pivot ranges over ALL common hypernyms, the shortest combined path wins) are part of what the metrics compute."""
+    from .c13 import r5_anchors as c13_anchors
+    c13_anchors(ctx, res)
+
 RULES = [
     ('C14-R1', r1_pos_check_first, 7),
     ('C14-R2', r2_error_discipline, 10),
@@ -210,4 +216,5 @@ RULES = [
     ('C14-R5', r5_anchors, 7),
     ('C14-R6', r6_errors_before_values, 11),
     ('C14-R7', r7_no_memo, 25),
+    ('C14-R8', r8_paths_behind_the_metrics, 10),
 ]
